@@ -18,8 +18,13 @@ Fail == O(FALSE, FALSE, "none")
 NameOf(cfg) == CASE cfg.nameflag = "valid" -> "pkgx"
                  [] cfg.nameflag = "invalid" -> "9bad"
                  [] cfg.nameflag = "keyword" -> "func"
+                 [] cfg.nameflag = "hyphen" -> "my-lang"          \* an identifier followed by something that is not one
+                 [] cfg.nameflag = "dot" -> "lang.v2"
+                 [] cfg.nameflag = "space" -> "calc 2"
+                 [] cfg.nameflag = "slash" -> "sub/pkgx"          \* (the directory sub exists)
+                 [] cfg.nameflag = "underscore" -> "_x1"
                  [] OTHER -> IF cfg.input = "validkw" THEN "type" ELSE "calc"
-NameValid(n) == n \in {"pkgx", "calc"}
+NameValid(n) == n \in {"pkgx", "calc", "_x1"}
 
 Outcome(cfg) ==
   IF cfg.mode \in {"help", "version"} THEN O(TRUE, FALSE, "none")
